@@ -453,6 +453,56 @@ func enumBatchFaults(prop string) []*Case {
 	return out
 }
 
+// enumBadSubsets: small-scope enumeration of WHERE the damage sits: every
+// subset of bad positions for n = 4..6 (two kinds of damage), and - thorough
+// tier - every single bad position of the ladder shapes for six kinds.
+func enumBadSubsets() []*Case {
+	var out []*Case
+	seed := uint64(0x5B5E7)
+	mk := func(n int, bad func(i int) string) {
+		seed++
+		op := &Op{Fn: "VerifyBatch", Seed: mix64(seed), Rd: &DevPlan{CSeed: mix64(seed ^ 99)}}
+		op.Entries = make([]Entry, n)
+		for i := range op.Entries {
+			op.Entries[i] = Entry{K: "ok", Key: i % 2, ML: i % 7}
+			if k := bad(i); k != "" {
+				op.Entries[i].K = k
+				op.Entries[i].P = int(seed % 251)
+			}
+		}
+		out = append(out, &Case{Prop: "C06", Check: "batch", Op: op})
+	}
+	for n := 4; n <= 6; n++ {
+		for mask := 0; mask < 1<<uint(n); mask++ {
+			for _, kind := range []string{"fS", "tS"} {
+				m, k := mask, kind
+				mk(n, func(i int) string {
+					if m>>uint(i)&1 == 1 {
+						return k
+					}
+					return ""
+				})
+			}
+		}
+	}
+	if tierThorough {
+		for _, n := range []int{4, 5, 8, 64, 65, 68, 130} {
+			for pos := 0; pos < n; pos++ {
+				for _, kind := range []string{"msg", "fS", "sL", "smA", "tS", "tK"} {
+					p, k := pos, kind
+					mk(n, func(i int) string {
+						if i == p {
+							return k
+						}
+						return ""
+					})
+				}
+			}
+		}
+	}
+	return out
+}
+
 // ---------------------------------------------------------------- the oracle
 
 // single is the reference model of C06/C17: the library's own single
